@@ -51,6 +51,10 @@ func (db *DB) Lookup(key []byte) (uint64, error) {
 
 // LookupBucket returns a handle to the bucket that might contain the given key.
 func (db *DB) LookupBucket(key []byte) (*Bucket, error) {
+	if db.Header.NumBuckets == 0 {
+		// BucketHash reduces the hash modulo the number of buckets
+		return nil, ErrNotFound
+	}
 	return db.GetBucket(db.Header.BucketHash(key))
 }
 
@@ -71,6 +75,10 @@ func (db *DB) GetBucket(i uint) (*Bucket, error) {
 	readErr := bucket.BucketHeader.readFrom(db.Stream, i)
 	if readErr != nil {
 		return nil, readErr
+	}
+	if int(bucket.HashLen)+int(bucket.OffsetWidth) > int(bucket.Stride) {
+		// the hash length comes from the file and is used to slice the entries
+		return nil, fmt.Errorf("invalid bucket header: hash length %d does not fit the entry stride %d", bucket.HashLen, bucket.Stride)
 	}
 	bucket.Entries = io.NewSectionReader(db.Stream, int64(bucket.FileOffset), int64(bucket.NumEntries)*int64(bucket.Stride))
 	if db.prefetch {
